@@ -21,6 +21,7 @@
 #include "aes_keyexp.h"
 #include "isal_crypto_api.h"
 
+extern void verif_poison_vregs(void); /* harness/poison.S */
 typedef void (*xts_fn)(uint8_t *, uint8_t *, uint8_t *, uint64_t, const uint8_t *, uint8_t *);
 typedef int (*xts_ifn)(const uint8_t *, const uint8_t *, const uint8_t *, const uint64_t, const void *, void *);
 
@@ -104,6 +105,7 @@ do_call(const struct entry *e, const struct callspec *c, uint8_t *got, char *fla
                 *e->disp = e->mbinit;
         }
         if (sigsetjmp(aesm_jb, 1) == 0) {
+                verif_poison_vregs();
                 if (e->kind == 1) rc = ((xts_ifn) e->fn)(k2.p, k1.p, tw.p, c->len, in.p, out.p);
                 else ((xts_fn) e->fn)(k2.p, k1.p, tw.p, c->len, in.p, out.p);
         } else faulted = 1;
